@@ -267,6 +267,58 @@ func predSplit(c splitCase, o *evid.Obs) error {
 	if errRows > 0 {
 		o.Tag("malformed-lines-reach-parser")
 	}
+	// extraction that overwrites a label the stream already had (afterBreaker is upRows through
+	// the split-forcing stage only, which never drops or reorders rows)
+	if breaker.Kind != refeval.KLineFormat && len(afterBreaker) == len(upRows) {
+		changedSame, rewrittenEqual := false, false
+		perSrc := map[int]map[string]bool{}
+		for i, r := range afterBreaker {
+			if r.Err != "" {
+				continue
+			}
+			before := upRows[i].Labels
+			changed := false
+			for k, v := range before {
+				if nv, ok := r.Labels[k]; ok && nv != v {
+					changed = true
+				}
+			}
+			if changed && len(r.Labels) == len(before) {
+				changedSame = true
+			}
+			if !changed && len(r.Labels) == len(before) {
+				// the line parsed, yet the label set is what it was: every extracted key
+				// re-wrote a stored label with the value it already had (or nothing was
+				// extractable)
+				rewrittenEqual = true
+			}
+			if len(r.Labels) == len(before) {
+				if perSrc[r.SrcSeries] == nil {
+					perSrc[r.SrcSeries] = map[string]bool{}
+				}
+				perSrc[r.SrcSeries][refeval.LabelsKey(r.Labels)] = true
+			}
+		}
+		if changedSame {
+			o.Tag("extraction-overwrites-stream-label:count-unchanged")
+		}
+		if rewrittenEqual {
+			o.Tag("extraction-leaves-label-set-unchanged")
+		}
+		for _, sets := range perSrc {
+			if len(sets) >= 2 {
+				// one stream fans out into several label sets of the ORIGINAL size: only the
+				// recomputed fingerprint keeps them apart
+				o.Tag("one-stream-several-same-size-label-sets")
+				if !metric {
+					o.Tag("one-stream-several-same-size-label-sets:log")
+				} else if e.AggFn == "" && e.RangeGroup == nil {
+					o.Tag("one-stream-several-same-size-label-sets:ungrouped-range")
+				}
+				break
+			}
+		}
+	}
 	if len(upRows) == 0 {
 		o.Tag("empty-upstream")
 	}
